@@ -20,9 +20,12 @@
                    oracle); depth = nesting depth of a parsed document
      burst_ops     (Model.v) a counted burst of filter calls on pairwise
                    different inputs: an ordinary list of operations, so every
-                   theorem about mrun covers histories containing bursts *)
+                   theorem about mrun covers histories containing bursts
+     lrun          (Model.v) a LIVE history: ordinary operations and assignments
+                   m.rate_limit = r / m.enable_adaptive = b on the live membrane;
+                   each decision comes with the rate_limit in force at the call *)
 From Coq Require Import String ZArith List Bool.
-From Verif Require Import C10.Regex C10.RegexProofs C10.Model C10.Proofs C10.Run.
+From Verif Require Import C10.Regex C10.RegexProofs C10.Model C10.Proofs C10.LiveProofs C10.Run.
 Import ListNotations.
 Open Scope Z_scope.
 
@@ -152,6 +155,55 @@ Theorem c10_embed_stable_regex :
      exists r, snd (icheck cc vals2 st2 (pre ++ c ++ post)) = IOk r /\ ir_allowed r = false).
 Proof. exact embed_stable_regex_all. Qed.
 Print Assumptions c10_embed_stable_regex.
+
+(* DECORATED occurrences.  A code point that is not a \w character - for Python
+   (str.lower, sre) that is what a combining mark, an enclosing mark, a
+   variation selector, a zero-width joiner / space or a soft hyphen is: nothing
+   in the gates composes it with its neighbour - placed right AFTER an
+   occurrence is the first character of the surrounding text, so the right edge
+   condition of c10_embed_stable_regex holds whatever the pattern and whatever
+   follows (1); right BEFORE it, the same on the left (2); one on each side: the
+   signature still matches with no condition on the pattern or on the rest of
+   the text at all (3).  Hence (4) an input the membrane blocked by a scan stays
+   blocked with a mark glued to each side inside any text (and with a mark
+   after it under the left edge condition alone), in every state with the same
+   rules, and (5) the innate filter likewise, whatever the validators do.
+   (6) py_cc, the classification run_case executes (and the harness checks
+   against Python on every run), has the twelve decoration characters of the
+   generator - U+0300 U+0301 U+0303 U+0308 U+0323 U+0327 U+20DD U+3099 U+FE0F
+   U+200B U+200D U+00AD - as case-less non-\w, non-\s, non-\d code points.
+   A mark INSIDE an occurrence, or a compatibility spelling of it (fullwidth
+   letters, ligatures), is a different string that the signature does not match
+   (Examples.v: ex_decorations): the property asks nothing for it, except that
+   U+212A KELVIN SIGN is a case variant of k (lower() = k: c10_case_stable). *)
+Theorem c10_decorated_occurrence_stays_blocked :
+  (forall cc g s pre post m, sig_embed_ok cc g -> cc_word cc m = false ->
+     (sig_edge_free_l g = true \/ last_word cc false pre = false) ->
+     sig_matches cc g s = true -> sig_matches cc g (pre ++ s ++ m :: post) = true) /\
+  (forall cc g s pre post m, sig_embed_ok cc g -> cc_word cc m = false ->
+     (sig_edge_free_r g = true \/ head_word cc post = false) ->
+     sig_matches cc g s = true -> sig_matches cc g (pre ++ m :: s ++ post) = true) /\
+  (forall cc g s pre post m1 m2, sig_embed_ok cc g -> cc_word cc m1 = false -> cc_word cc m2 = false ->
+     sig_matches cc g s = true -> sig_matches cc g (pre ++ m1 :: s ++ m2 :: post) = true) /\
+  (forall cfg st c st' r,
+     mfilter cfg st c = (st', r) -> r_kind r = Scanned -> r_allowed r = false ->
+     (forall g, In g (r_matched r) -> sig_embed_ok (c_cc cfg) g) ->
+     forall st2 pre post m1 m2, same_rules st st2 ->
+     cc_word (c_cc cfg) m1 = false -> cc_word (c_cc cfg) m2 = false ->
+     r_allowed (snd (mfilter cfg st2 (pre ++ m1 :: c ++ m2 :: post))) = false /\
+     (((forall g, In g (r_matched r) -> sig_edge_free_l g = true) \/ last_word (c_cc cfg) false pre = false) ->
+      r_allowed (snd (mfilter cfg st2 (pre ++ c ++ m2 :: post))) = false)) /\
+  (forall cc st c st2 pre post m1 m2 vals2,
+     (forall g, In g (i_pats st) -> sig_embed_ok cc g) ->
+     i_threshold st <= max_level (scan cc (i_pats st) c) ->
+     i_pats st2 = i_pats st -> i_threshold st2 = i_threshold st ->
+     cc_word cc m1 = false -> cc_word cc m2 = false ->
+     snd (icheck cc vals2 st2 (pre ++ m1 :: c ++ m2 :: post)) = IRaised \/
+     exists r, snd (icheck cc vals2 st2 (pre ++ m1 :: c ++ m2 :: post)) = IOk r /\ ir_allowed r = false) /\
+  forallb (fun m => negb (cc_word py_cc m) && negb (cc_space py_cc m) &&
+                    negb (cc_digit py_cc m) && (cc_fold py_cc m =? m)) py_marks = true.
+Proof. exact decorated_all. Qed.
+Print Assumptions c10_decorated_occurrence_stays_blocked.
 
 (* "No active signature (built-in, CUSTOM, learned or imported) ... matches it",
    for signatures of every kind, HOST patterns included (KHost f: a regex with
@@ -294,6 +346,77 @@ Theorem c10_rate_bound :
     forall a, count_in a (admitted (snd (mrun cfg (minit sigs thr t0) ops))) <= Z.max 0 n.
 Proof. exact m_rate_bound. Qed.
 Print Assumptions c10_rate_bound.
+
+(* "At most rate_limit inputs are admitted per window" when rate_limit is
+   RE-ASSIGNED on the live membrane (raised, lowered, switched off with None and
+   on again) anywhere in a history of any length, with a monotone clock:
+   (1) every decision made while rate_limit was a number n and not refused by
+   the rate check finds at most n counted admissions - itself included - among
+   the decisions so far whose time stamp is later than its own time - 60 s
+   ("counted" = passed the rate check while rate_limit was a number; with
+   rate_limit = None the limiter is off, see (3)); in particular none is
+   admitted under n <= 0;
+   (2) decisions are stamped in order, so those time stamps are exactly the
+   ones in the window (t - 60 s, t] ending at the decision;
+   (3) while rate_limit is None no request is refused by the rate check.
+   With a constant limit this is c10_rate_bound (c10_live_reconfiguration (1)). *)
+Theorem c10_rate_bound_live :
+  (forall cfg sigs thr t0 ops, Forall lnonneg ops ->
+     forall a e b n, snd (lrun cfg (minit sigs thr t0) ops) = a ++ e :: b ->
+     fst e = Some n -> is_limited (r_kind (snd e)) = false ->
+     trailing (r_time (snd e)) (ladmitted (a ++ [e])) <= n) /\
+  (forall cfg st ops, Forall lnonneg ops ->
+     forall a e b, snd (lrun cfg st ops) = a ++ e :: b ->
+     forall x, In x a -> r_time (snd x) <= r_time (snd e)) /\
+  (forall cfg st ops e, In e (snd (lrun cfg st ops)) -> fst e = None -> is_limited (r_kind (snd e)) = false).
+Proof. exact live_rate_all. Qed.
+Print Assumptions c10_rate_bound_live.
+
+(* Configuration attributes assigned on a LIVE membrane between requests
+   (rate_limit, enable_adaptive; threshold is OSetThreshold).  (1) A history
+   without assignments is an ordinary history, so every theorem above is about
+   live histories that happen to contain none; (2) an assignment replaces that
+   one field - the next call reads it - and leaves the state (request times,
+   replay memory, audit trail, signatures) alone; (3) it cannot reach the
+   matching semantics or the hash.  Across ANY live history: (4) an input
+   blocked by a scan is refused afterwards; (5) the audit trail is the old one
+   followed by every decision, in order (no clear_audit_log); (6) constructor /
+   add_signature signatures stay active; (7) a learned / imported signature
+   stays in the adaptive memory until exactly its text is learnt, imported or
+   forgotten - switching enable_adaptive off does not drop it - and keeps
+   refusing what it matches at or above the threshold; (8) learn_threat while
+   enable_adaptive is off changes nothing.  Every single decision obeys
+   c10_allowed_sound / c10_level_is_max under the configuration in force
+   (those theorems are per call and for every configuration). *)
+Theorem c10_live_reconfiguration :
+  (forall ops cfg st,
+     lrun cfg st (map LOp ops) =
+     (cfg, fst (mrun cfg st ops), map (fun r => (c_rate cfg, r)) (snd (mrun cfg st ops)))) /\
+  (forall cfg st,
+     (forall r, lstep cfg st (LSetRate r) = (set_rate cfg r, st, None) /\ c_rate (set_rate cfg r) = r /\
+                c_adaptive (set_rate cfg r) = c_adaptive cfg) /\
+     (forall b, lstep cfg st (LSetAdaptive b) = (set_adaptive cfg b, st, None) /\
+                c_adaptive (set_adaptive cfg b) = b /\ c_rate (set_adaptive cfg b) = c_rate cfg)) /\
+  (forall ops cfg st,
+     c_cc (fst (fst (lrun cfg st ops))) = c_cc cfg /\ c_hash (fst (fst (lrun cfg st ops))) = c_hash cfg) /\
+  (forall cfg st c st1 r,
+     mfilter cfg st c = (st1, r) -> r_kind r = Scanned -> r_allowed r = false ->
+     forall ops c', c_hash cfg c' = c_hash cfg c ->
+     r_allowed (snd (mfilter (fst (fst (lrun cfg st1 ops))) (snd (fst (lrun cfg st1 ops))) c')) = false) /\
+  (forall ops cfg st,
+     forallb (fun o => negb (lis_clear o)) ops = true ->
+     m_audit (snd (fst (lrun cfg st ops))) = m_audit st ++ map snd (snd (lrun cfg st ops))) /\
+  (forall ops cfg st g, In g (m_sigs st) -> In g (active (snd (fst (lrun cfg st ops))))) /\
+  (forall ops cfg st g c,
+     In g (m_learned st) -> forallb (fun o => negb (lnames (s_key g) o)) ops = true ->
+     let cfg' := fst (fst (lrun cfg st ops)) in
+     let st' := snd (fst (lrun cfg st ops)) in
+     In g (m_learned st') /\
+     (sig_matches (c_cc cfg) g c = true -> m_threshold st' <= s_level g ->
+      r_allowed (snd (mfilter cfg' st' c)) = false)) /\
+  (forall cfg st g, c_adaptive cfg = false -> lstep cfg st (LOp (OLearn g)) = (cfg, st, None)).
+Proof. exact live_all. Qed.
+Print Assumptions c10_live_reconfiguration.
 
 (* Every filter call appends exactly its own result to the audit list and
    every other operation except clear_audit_log leaves the list untouched;
